@@ -46,7 +46,7 @@ def run(pid, only=None, checks=None, tier="quick"):
         res = {"applied": a.returncode == 0, "checks": {}}
         if a.returncode != 0:
             res["apply_error"] = a.stderr[-500:]
-            sh("git -C /repo checkout -- . && git -C /repo reset -q")
+            sh("git -C /repo reset -q && git -C /repo checkout -- .")
         else:
             try:
                 for c in (checks or [pid]):
@@ -59,7 +59,7 @@ def run(pid, only=None, checks=None, tier="quick"):
                                         "wall": round(time.time() - t, 1), "tail": r.stdout[-300:] if r.returncode not in (0, 1) else ""}
                     print(pid, n, c, "exit", r.returncode, "violations", res["checks"][c]["violations"], flush=True)
             finally:
-                sh("git -C /repo checkout -- . && git -C /repo reset -q")
+                sh("git -C /repo reset -q && git -C /repo checkout -- .")
         res["detected"] = any(v["exit"] == 1 and v["violations"] > 0 for v in res["checks"].values())
         json.dump(res, open(os.path.join(d, "result.json"), "w"), indent=1)
     sh(f"git -C {VERIF} checkout -- lean/NmfuModel/Generated")
